@@ -327,6 +327,38 @@ def check(run):
     for key, ok, where, what, det, tmpl in T.run(stack_drain_certificate=cert):
         run.ob("R2-termination", key, ok, where, what, det, mech=tmpl)
     run.floor("R2-termination", 30)
+
+    # ------------------------------------------------------------------ R3 recursion depth of the read-only views
+    # A view that recurses once per tree level (T6 structural descent) needs the tree's height to be bounded by something the
+    # caller controls.  scan_node deepens the tree in two ways: the decoded arm (costs one unit of depth_limit) and the context
+    # arm, which nests the next hits under an undecoded hit.  If the context arm costs nothing and is not bounded by the size of
+    # the context stack, the height is bounded only by the input length and the interpreter's recursion limit is reachable.
+    from .. import frames
+    fa = frames.analysis(prog)
+    sn_ = prog.fn("multidecoder.Multidecoder.scan_node")
+    STACK = getattr(fa.R, "STACK", None)
+    ctx_push = [n for n in own_nodes(sn_.node) if isinstance(n, ast.Call) and isinstance(n.func, ast.Attribute) and n.func.attr == "append"
+                and STACK and norm_src(n.func.value) == STACK]
+    bounded = False
+    why_unbounded = "scan_node has no context arm"
+    if ctx_push:
+        az_ = G.Atomizer()
+        pc_ = G.reach(sn_.body, common.enclosing_stmt(ctx_push[0]), az_)
+        atoms_ = [a[1] for a in G.atoms_of(pc_)] if pc_ is not None else []
+        bounded = any(f"len({STACK})" in a_ for a_ in atoms_)
+        why_unbounded = (f"the context arm (`{norm_src(ctx_push[0])}` at {sn_.module.rel}:{ctx_push[0].lineno}) nests later hits under an undecoded hit without "
+                         f"consuming depth_limit and without a bound on len({STACK}): the tree's height is bounded only by the input length, e.g. "
+                         "b'createobject(' * 1500 + b'x' + b')' * 1500 gives a tree 1501 levels deep and RecursionError in every recursive view")
+    n_views = 0
+    for key, ok, where, what, det, tmpl in T.results:
+        if "T6 structural descent" not in tmpl or "T5 " in tmpl or not key.endswith("/recursion"):
+            continue      # (a recursion that also spends a decreasing budget parameter is bounded by that budget)
+        fq = key[: -len("/recursion")]
+        n_views += 1
+        run.ob("R3-recursion-depth", f"{fq}/height-bounded-by-budget", bounded or not ctx_push, where,
+               f"{fq.rsplit('.', 1)[-1]} recurses once per tree level, so the height of the trees scan() builds must be bounded by the depth budget "
+               "(or by a bound on the context stack)", "" if (bounded or not ctx_push) else why_unbounded, mech="T6 recursion x frame analysis of the context arm")
+    run.note("recursive_views", n_views)
     # depth-limited recursion of scan_node is C07's (imported as a floor: the check is re-run there)
     run.assume("scan_node's recursion terminates by the depth guard (decided under C07 R1/R2) ")
 
